@@ -411,7 +411,31 @@ func (c *Ctx) checkLoopAccumulation(rule string, m *core.Module, l *mapLoop, bas
 			continue
 		}
 		seen[k] = true
-		verdict, why := c.accumulationFlow(m, l, s.obj)
+		verdict, why := "", ""
+		if strings.HasPrefix(s.what, "write to") {
+			// bytes written to a writer cannot be re-ordered afterwards: the writer must be local to the iteration
+			w := core.Unwrap(s.obj)
+			definedInLoop := false
+			if in, ok := w.(ssa.Instruction); ok && l.blocks[in.Block()] {
+				definedInLoop = true
+			}
+			isStderr := false
+			if ld, ok := w.(*ssa.UnOp); ok {
+				if g, ok := ld.X.(*ssa.Global); ok && (g.Name() == "Stderr") {
+					isStderr = true
+				}
+			}
+			switch {
+			case isStderr:
+				verdict = "message"
+			case definedInLoop:
+				verdict, why = "sorted", "the writer is created inside the iteration"
+			default:
+				verdict, why = "escapes", "output is written to a writer that outlives the loop while iterating a map: the order of the emitted text is the map's iteration order and differs between runs"
+			}
+		} else {
+			verdict, why = c.accumulationFlow(m, l, s.obj)
+		}
 		p := m.InstrPos(s.at)
 		switch verdict {
 		case "sorted":
